@@ -112,6 +112,7 @@ class Impl:
         self.choices = []
         self.queues = []
         self.put_log = []      # (app id, server id, call site) for every successful Server.put in a cycle
+        self.tracker_skipped = []   # instances the PlacementFeasibilityTracker declared infeasible in the cycle
 
     # -- patching -----------------------------------------------------------
     def __enter__(self):
@@ -168,6 +169,14 @@ class Impl:
                 impl.put_log.append((impl.app_ids[app.name], impl.srv_ids[server.name], site))
             return rc
         s.Server.put = put
+        self._orig_feasible = s.PlacementFeasibilityTracker.feasible
+
+        def feasible(tracker, app):
+            rc = impl._orig_feasible(tracker, app)
+            if not rc:
+                impl.tracker_skipped.append(impl.app_ids[app.name])
+            return rc
+        s.PlacementFeasibilityTracker.feasible = feasible
         self.cell = s.Cell(bname(self.root_id))
         self.buckets[self.root_id] = self.cell
         self.bkt_ids[self.cell.name] = self.root_id
@@ -181,6 +190,7 @@ class Impl:
         s.Cell._record_rank_and_util = self._orig_record
         s.Cell.schedule_alloc = self._orig_sched_alloc
         s.Server.put = self._orig_put
+        s.PlacementFeasibilityTracker.feasible = self._orig_feasible
 
     # -- ops ---------------------------------------------------------------
     def _alloc(self, label, path):
@@ -287,6 +297,7 @@ class Impl:
             self.choices = []
             self.queues = []
             self.put_log = []
+            self.tracker_skipped = []
             placement = self.cell.schedule()
             return placement
         else:
@@ -432,7 +443,8 @@ def run_history(case, want_trace=True):
                                       'placement': [[impl.app_ids[n], impl.srv_ids.get(sb) if sb else None, eb,
                                                      impl.srv_ids.get(sa) if sa else None, ea]
                                                     for (n, sb, eb, sa, ea) in placement],
-                                      'puts': [list(p) for p in impl.put_log]})
+                                      'puts': [list(p) for p in impl.put_log],
+                                      'tracker_skipped': list(impl.tracker_skipped)})
                 else:
                     rc = impl.apply(op)
                     ops_out.append(['Tick', impl.clock.now] if rc == 'noop' else op)
